@@ -9,7 +9,7 @@ Open Scope string_scope.
 Theorem alias_excluded_wf :
   forall lit re_search (mt : mtable) (tm : terms) (sp : sep) (o : opts) (d : node) (res : list hit),
     o_anchors o = false -> o_expand o = false -> names_consistent (anc_occs d) = true ->
-    doc_wf mt d = true ->
+    doc_wf d = true ->
     search_doc lit re_search mt tm sp o d = Ok res ->
     forall h, In h res -> vjustified lit re_search tm mt o d h.
 Proof.
@@ -19,9 +19,12 @@ Qed.
 
 (* `a: {<<: {k: &v hit}}` / `b: *v`: the merge source is an INLINE mapping that
    defines the anchor &v for the first time; the merged-in entry a.k is hidden
-   with both alias options off, nothing records &v, and the alias b: *v is
-   reported.  [merged_closed] is false of this document (and so is
-   [shared_closed]); every merge through an alias `<<: *x` satisfies it. *)
+   with both alias options off.  The search used to skip it without a look, so
+   nothing recorded &v and the alias b: *v was reported (the former witness
+   C07_inline_merge_refuted; [doc_wf] had a third part, merged_closed, false of
+   this document).  Since the repair the hidden entry is classified and walked
+   by record_anchors: &v is on record, b is an aliased repeat, nothing is
+   reported; with the alias options on, both places are. *)
 Definition dw_i (n : N) : info := mkinfo n None true None.
 Definition dw_leaf (n : N) (s : string) : node := NLeaf (mkinfo n None false None) (PStr s).
 Definition dw_v : node := NLeaf (mkinfo 4 (Some "v") true None) (PStr "hit").
@@ -32,12 +35,22 @@ Definition dw_opts : opts := mkopts true false false false false false.
 Definition dw_lit : string -> outcome litres := fun _ => Ok LFail.
 Definition dw_re : string -> string -> outcome reres := fun _ _ => Ok (RMatch false).
 
-Lemma inline_merge_witness :
-  same_oid_same_tree dw_doc = true /\ c07_keys_leaf dw_doc = true /\ names_consistent (anc_occs dw_doc) = true /\
-  merged_closed dw_mt dw_doc [] = false /\ shared_closed dw_mt dw_opts dw_doc [] = false /\
-  search_doc dw_lit dw_re dw_mt (mkterms false MEquals "*" "hit") Dot dw_opts dw_doc =
-    Ok [mkhit "b" [RKey (PStr "b")] HValue] /\
-  is_repeat (flat_map entry_occs (firstn 1 [(dw_leaf 1 "a", NMap (dw_i 2) [(dw_leaf 3 "k", dw_v)])])) dw_v = true.
+Definition dw_opts_all : opts := mkopts true false false true true false.
+(* the same document with an own key that is an alias of &v: j comes before the
+   merged-in k in items() order, so a.j is the original and is reported *)
+Definition dw_doc_j : node :=
+  NMap (dw_i 0) [(dw_leaf 1 "a", NMap (dw_i 2) [(dw_leaf 7 "j", dw_v); (dw_leaf 3 "k", dw_v)]); (dw_leaf 5 "b", dw_v)].
+Definition dw_mt_j : mtable := [(2%N, mkminfo [1] [NMap (dw_i 6) [(dw_leaf 3 "k", dw_v)]])].
+
+Lemma inline_merge_repaired :
+  doc_wf dw_doc = true /\ names_consistent (anc_occs dw_doc) = true /\
+  shared_closed dw_mt dw_opts dw_doc [] = true /\
+  is_repeat (flat_map entry_occs (firstn 1 [(dw_leaf 1 "a", NMap (dw_i 2) [(dw_leaf 3 "k", dw_v)])])) dw_v = true /\
+  search_doc dw_lit dw_re dw_mt (mkterms false MEquals "*" "hit") Dot dw_opts dw_doc = Ok [] /\
+  search_doc dw_lit dw_re dw_mt (mkterms false MEquals "*" "hit") Dot dw_opts_all dw_doc =
+    Ok [mkhit "a.k" [RKey (PStr "a"); RKey (PStr "k")] HValue; mkhit "b" [RKey (PStr "b")] HValue] /\
+  search_doc dw_lit dw_re dw_mt_j (mkterms false MEquals "*" "hit") Dot dw_opts dw_doc_j =
+    Ok [mkhit "a.j" [RKey (PStr "a"); RKey (PStr "j")] HValue].
 Proof. vm_compute. repeat split; reflexivity. Qed.
 
 (* the same merge through an alias: x: &m {k: &v hit} / a: {<<: *m} / b: *v *)
@@ -47,7 +60,7 @@ Definition dw_doc2 : node :=
 Definition dw_mt2 : mtable := [(6%N, mkminfo [0] [dw_m])].
 
 Lemma doc_wf_example :
-  doc_wf dw_mt2 dw_doc2 = true /\ names_consistent (anc_occs dw_doc2) = true /\
+  doc_wf dw_doc2 = true /\ names_consistent (anc_occs dw_doc2) = true /\
   search_doc dw_lit dw_re dw_mt2 (mkterms false MEquals "*" "hit") Dot dw_opts dw_doc2 =
     Ok [mkhit "x.k" [RKey (PStr "x"); RKey (PStr "k")] HValue].
 Proof. vm_compute. repeat split; reflexivity. Qed.
